@@ -4,6 +4,7 @@ import (
 	"bufio"
 	"encoding/json"
 	"fmt"
+	"math"
 	"os"
 	"os/exec"
 	"path/filepath"
@@ -236,6 +237,16 @@ func (r *Run) merge(cr *childResult) {
 // ChildMax records a per-child maximum (e.g. tick high-water mark); the
 // parent keeps the maximum over children under coverage key "max_<name>".
 func (r *Run) ChildMax(name string, v float64) {
+	// the evidence is JSON: keep the value finite
+	if math.IsNaN(v) {
+		return
+	}
+	if math.IsInf(v, 1) || v > 1e300 {
+		v = 1e300
+	}
+	if math.IsInf(v, -1) || v < -1e300 {
+		v = -1e300
+	}
 	r.mu.Lock()
 	if r.childExtra == nil {
 		r.childExtra = map[string]float64{}
